@@ -53,6 +53,7 @@ import CatVerif.Proofs.Units
 import CatVerif.Proofs.UnitsHist
 import CatVerif.Proofs.UnitsU
 import CatVerif.Proofs.UnitsM
+import CatVerif.Proofs.Steps
 namespace Cat
 open St
 
@@ -272,5 +273,13 @@ example : UnitShape [13, 10, 79, 75, 13, 10] ∧ UnitShape [10, 43, 88, 61, 53, 
   ⟨⟨[13, 10], [13, 10], [79, 75], Or.inr rfl, Or.inr rfl, by decide, Or.inl rfl⟩,
    ⟨[10], [10], [43, 88, 61, 53], Or.inl rfl, Or.inl rfl, by decide, Or.inl rfl⟩,
    ⟨[10], [10], [10, 65, 84, 43, 88, 10], Or.inl rfl, Or.inl rfl, by decide, Or.inr rfl⟩⟩
+
+/-- output arbitration — a machine leaves FLUSH_IO_WRITE_WAIT only while the other one is not in
+FLUSH_IO_WRITE — is, in the model, the text regenerated from `process_io_write_wait` and
+`unsolicited_process_io_write_wait` of the source (translator item T9) -/
+theorem C11_arbitration_generated (D : Desc) (s : St) :
+    processIoWriteWait s = Gen.process_io_write_wait D s ∧
+    unsolicitedProcessIoWriteWait s = Gen.unsolicited_process_io_write_wait D s :=
+  ⟨processIoWriteWait_generated D s, unsolicitedProcessIoWriteWait_generated D s⟩
 
 end Cat
